@@ -1,27 +1,31 @@
-"""Apply each seeded mutation to /repo, run every registered quick check, undo it.
-Prints which checks (properties) report a violation per seed.  /repo is restored after every
-seed (git checkout -- .) and verified clean at the end."""
-import json, os, subprocess, sys, glob
+"""Apply each seeded mutation to a scratch copy of /repo (removed afterwards), run every registered
+quick check on it (MVERIF_REPO), and print which checks (properties) report a violation per seed.
+/repo itself is not touched.  usage: run_seeded.py [-v] [id-prefix ...]"""
+import json, os, subprocess, sys, glob, shutil, tempfile
+from concurrent.futures import ThreadPoolExecutor
 VERIF = "/verif"
 seeds = sorted(glob.glob(f"{VERIF}/seeded/*/patch.diff"))
 only = [a for a in sys.argv[1:] if not a.startswith("-")]
 m = json.load(open(f"{VERIF}/MANIFEST.json"))
 props = [c["property_id"] for c in m["checks"]]
+
+
 def sh(cmd, **kw):
     return subprocess.run(cmd, shell=True, capture_output=True, text=True, **kw)
-assert sh("git -C /repo status --porcelain").stdout.strip() == "", "/repo not clean"
-summary = {}
-for patch in seeds:
+
+
+def run(patch):
     sid = os.path.basename(os.path.dirname(patch))
-    if only and not any(sid.startswith(o) for o in only):
-        continue
-    r = sh(f"git -C /repo apply {patch}")
-    if r.returncode != 0:
-        print(sid, "APPLY FAILED", r.stderr[:200]); continue
+    tmp = tempfile.mkdtemp(prefix="mverif-seed-")
     try:
-        hits, unk, own = [], [], None
+        sh(f"rsync -a --exclude .git --exclude __pycache__ /repo/ {tmp}/")
+        r = sh(f"cd {tmp} && git init -q . 2>/dev/null; git apply {patch}")
+        if r.returncode != 0:
+            return sid, None, f"APPLY FAILED {r.stderr[:200]}"
+        hits, unk, own, own_lines = [], [], None, []
+        env = dict(os.environ, MVERIF_REPO=tmp)
         for p in props:
-            r = sh(f"/venv/bin/python -m mverif check {p} --no-evidence", cwd=VERIF)
+            r = sh(f"/venv/bin/python -m mverif check {p} --no-evidence", cwd=VERIF, env=env)
             if r.returncode == 1:
                 hits.append(p)
             elif r.returncode == 2:
@@ -29,14 +33,25 @@ for patch in seeds:
             if p == sid.split("-")[0]:
                 own = r.returncode
                 own_lines = [l for l in r.stdout.splitlines() if l.startswith("  mosaik") or l.startswith("ANALYSIS")][:3]
-        summary[sid] = {"own_property_exit": own, "violations_in": hits, "analysis_error_in": unk}
-        flag = "DETECTED" if own == 1 else ("detected-elsewhere" if hits else ("UNKNOWN(exit2)" if own == 2 or unk else "MISSED"))
-        print(f"{sid:8s} {flag:18s} own={own} violations={','.join(hits) or '-'} unknown={','.join(unk) or '-'}")
-        if own == 1 and "-v" in sys.argv:
-            for l in own_lines: print("      ", l[:300])
+        return sid, {"own_property_exit": own, "violations_in": hits, "analysis_error_in": unk}, own_lines
     finally:
-        sh("git -C /repo checkout -- .")
-assert sh("git -C /repo status --porcelain").stdout.strip() == "", "/repo not clean after run"
+        shutil.rmtree(tmp, ignore_errors=True)
+
+
+todo = [p for p in seeds if not only or any(os.path.basename(os.path.dirname(p)).startswith(o) for o in only)]
+summary = {}
+with ThreadPoolExecutor(max_workers=int(os.environ.get("JOBS", "12"))) as ex:
+    for sid, rec, lines in ex.map(run, todo):
+        if rec is None:
+            print(sid, lines)
+            continue
+        summary[sid] = rec
+        own, hits, unk = rec["own_property_exit"], rec["violations_in"], rec["analysis_error_in"]
+        flag = "DETECTED" if own == 1 else ("detected-elsewhere" if hits else ("UNKNOWN(exit2)" if own == 2 or unk else "MISSED"))
+        print(f"{sid:9s} {flag:18s} own={own} violations={','.join(hits) or '-'} unknown={','.join(unk) or '-'}", flush=True)
+        if own == 1 and "-v" in sys.argv:
+            for l in lines:
+                print("      ", l[:300])
 if only:
     try:
         prev = json.load(open(f"{VERIF}/seeded/last_run.json"))
